@@ -244,10 +244,37 @@ def r_global_use(ctx):
         ctx.violation("R-GLOBAL-USE", "processscheduler.base.active_problem", "writers of the global problem",
                       f"written in {[(w[3], w[2]) for w in writers]}", "processscheduler/base.py")
     ctx.floor("R-GLOBAL-USE", "reads of the global problem", len(readers), 20)
-    for m, node, fname, cname in readers:
+    def enclosing(n_):
+        f_ = n_
+        while f_ is not None and not isinstance(f_, ast.FunctionDef):
+            f_ = getattr(f_, "_parent", None)
+        c_ = f_
+        while c_ is not None and not isinstance(c_, ast.ClassDef):
+            c_ = getattr(c_, "_parent", None)
+        return (f_.name if f_ else "<module>"), (c_.name if c_ else None)
+
+    def element_constructor(fname, cname):
         ci = proj.classes.get(cname) if cname else None
-        allowed = ci is not None and ci.is_subclass_of("NamedUIDObject") and not ci.is_subclass_of("SchedulingProblem") \
+        return ci is not None and ci.is_subclass_of("NamedUIDObject") and not ci.is_subclass_of("SchedulingProblem") \
             and (fname == "__init__" or (cname == "Task" and fname == "add_required_resource") or fname == "get_resource_cost")
+
+    def allowed_context(fname, cname, depth=0):
+        """an element constructor, or a helper (function or method) every call of which, anywhere in the package, is made from
+        an allowed context"""
+        if element_constructor(fname, cname):
+            return True
+        if depth >= 3 or fname in ("<module>", "__init__"):
+            return False
+        sites = []
+        for m2 in proj.modules.values():
+            for n2 in ast.walk(m2.tree):
+                if isinstance(n2, ast.Call) and ((isinstance(n2.func, ast.Name) and n2.func.id == fname)
+                                                 or (isinstance(n2.func, ast.Attribute) and n2.func.attr == fname)):
+                    sites.append(enclosing(n2))
+        return bool(sites) and all(allowed_context(f2, c2, depth + 1) for f2, c2 in sites)
+
+    for m, node, fname, cname in readers:
+        allowed = allowed_context(fname, cname)
         if not allowed:
             ctx.violation("R-GLOBAL-USE", f"{cname or m.short}.{fname}", "global problem read outside an element constructor",
                           f"`{ast.unparse(node)}` is read in {cname or m.short}.{fname}: solver, solution and exporters must use "
@@ -370,6 +397,17 @@ def r_order_prefix(ctx):
         for run in runs_of(ctx, entry):
             n += 1
             for ev in run.events_of("prefix-read"):
+                if ev.data.get("how") == "membership":
+                    # `x in acc` while acc is being filled is "x seen before": when what the loop adds to acc is x itself, the
+                    # elements kept are the distinct values, whatever the order of declaration
+                    from sa.values import PyList as _PL, PyDict as _PD
+                    c_ = ev.data["container"]
+                    added = [norm(i.value) for i in c_.items if isinstance(i.value, tuple) and ev.data["loop"] in i.loops] \
+                        if isinstance(c_, _PL) else [norm(k) for (k, _v, lp_, _g) in c_.entries if ev.data["loop"] in lp_]
+                    if added and all(x == norm(ev.data["tested"]) for x in added):
+                        continue
+                    if not run.emissions and not solver_calls(run):
+                        continue        # a reporter: nothing is asserted on this path, the order of a reported list is not the encoding
                 where = ev.site.func if ev.site.func else label
                 found.setdefault((where, show(norm(ev.data["loop"][3]))[:120]), (show(norm(ev.data["list"]))[:200], ev.site))
     for (where, over), (what, site) in sorted(found.items()):
